@@ -247,6 +247,13 @@ pub fn entry_events(args: &Args) {
         if let Some(t) = r.get("text") {
             let text = from_cps(t);
             exercise_str(&mut rec, &text);
+            // a one-line `k = V`: V on its own goes to every entry point too (the single-value parsers see it bare)
+            if let Some(v) = text.strip_prefix("k = ") {
+                let v = v.strip_suffix('\n').unwrap_or(v);
+                if !v.is_empty() && !v.contains('\n') {
+                    exercise_str(&mut rec, v);
+                }
+            }
             exercise_bytes(&mut rec, text.as_bytes());
             let mut nbytes = 0;
             if i % bytes_mod == 0 {
